@@ -297,15 +297,23 @@ def orm_names(prog: Program) -> RuleResult:
         f"left column {''.join(lt)} and right column {''.join(rt)} are the same template up to the table: for a collection of the own class "
         f"(children: List[Self]) the association table gets two identically named columns and the generated module cannot be imported",
     )
-    nm = _template(locals_.get("association_table_name"))
+    nk = kwarg(ctor[0], "name")
+    nm = _template(locals_.get(src(nk), nk)) if nk is not None else None
     ok = nm is not None and any("field.name" in p for p in nm) and any("tablename" in p for p in nm)
     r.check(ok, "WrappedTable.create_one_to_many_relationship#association-table-name", site(f), "".join(nm or ()), "unique per (owner table, field)",
             "association table names are not unique per owner table and field: two collections of one target type collide")
     g = prog.method(wt.qual, "create_one_to_one_relationship", inherited=False)
     fk = None
+    glocals = {}
     for s in walk_local(g.node):
-        if isinstance(s, ast.Assign) and src(s.targets[0]) == "fk_name":
-            fk = _template(s.value)
+        if isinstance(s, ast.Assign) and isinstance(s.targets[0], ast.Name):
+            glocals[s.targets[0].id] = s.value
+    # the name of the foreign key column: first argument of the column this method adds
+    for c in calls_in(g.node):
+        if call_name(c) == "append" and isinstance(c.func, ast.Attribute) and is_self_attr(c.func.value) and "foreign_key" in c.func.value.attr and c.args \
+                and isinstance(c.args[0], ast.Call) and c.args[0].args:
+            a0 = c.args[0].args[0]
+            fk = fk or _template(glocals.get(src(a0), a0))
     ok = fk is not None and any("field.name" in p for p in fk) and len([p for p in fk if not p.startswith("{")]) >= 0 and any("foreign_key_postfix" in p for p in fk)
     r.check(ok, "WrappedTable.create_one_to_one_relationship#fk-name", site(g), "".join(fk or ()), "foreign key column = field name + postfix (distinct from the relationship attribute)",
             "the foreign-key column is not derived from the field name plus the postfix: it collides with the relationship or with another reference")
